@@ -10,7 +10,7 @@ PROPS="${*:-C01 C02 C03 C07 C08 C09 C10 C11 C12 C13 C15 C16 C17 C18 C19}"
 SNAP=$(mktemp -d /dev/shm/verifsnap-XXXXXX)
 # /verif may be in the middle of an edit: take the copy again until it builds
 for try in 1 2 3 4 5 6 7 8 9 10 11 12; do
-  rsync -a --delete --exclude .git --exclude bin --exclude evidence --exclude replays --exclude seeded /verif/ "$SNAP/"
+  rsync -a --delete --exclude .git --exclude bin --exclude evidence --exclude replays --exclude seeded "${VERIF_SRC:-/verif}/" "$SNAP/"
   if (cd "$SNAP" && GOFLAGS=-mod=mod GOPROXY=off GOSUMDB=off GOTOOLCHAIN=local GOWORK=off go build ./... >/dev/null 2>&1); then break; fi
   sleep 20
 done
